@@ -451,12 +451,18 @@ def _rand_c15(rng, tier, sc0, grp0):
         base = {"naming": rng.choice(["Num", "NumD"]), "rot": rng.random() < 0.7}
         if base["rot"]:
             base["size"] = rng.choice([0, 3, 20, 100])
+        # Windows line endings, and records whose message logs to the same writer while it is formatted (every third history)
+        base["crlf"] = (i % 3 == 1) or rng.random() < 0.2
+        nested = (i % 3 == 1)
         steps = [{"op": "Start", "append": False}]
         for _ in range(rng.choice([3, 8, 20])):
             x = rng.random()
             if x < 0.5:
                 ln = rng.choice([1, 2, 5, 9, 30, 70, 300])
-                steps.append({"op": "Log", "len": ln})
+                st = {"op": "Log", "len": ln}
+                if nested and rng.random() < 0.4:
+                    st.update({"len": max(ln, 12), "recursive": rng.choice([1, 1, 2]), "ilen": rng.choice([12, 30, 250])})
+                steps.append(st)
             elif x < 0.9:
                 kind = rng.random()
                 if kind < 0.25:
